@@ -206,12 +206,14 @@ theorem noPanic_serverExtWalk (bs : List UInt8) (s : String) : runBuf Dtls.serve
 endpoint that has no keys yet (client or server) — the record loop of `handle_incoming_packet` (decode, epoch-0
 application-data skip, undecryptable-record break, alert indexing, error ends the datagram) and inside it the message
 loop of `process_handshake_payload` (messages decoded by the `HandshakeMessage::decode` model): the acceptance /
-fragment-reassembly bookkeeping of `process_handshake_payload` — sequence acceptance with the post-HVR re-sync, the
-clear-text-after-keys skip, buffer reset, the offset check, append, completion, `checked_add` of `recv_message_seq`,
+fragment-reassembly bookkeeping of `process_handshake_payload` — sequence acceptance with the post-HVR re-sync (only on a
+ServerHello), buffer reset, the offset / overlap check, append, completion, `checked_add` of `recv_message_seq`,
 transcript append — never panics, leaves its loop, keeps `recv_message_seq` inside u16 (exhaustion ends the payload with
 an error) and keeps `incomplete_handshake` below 2^24 bytes. The model is compared with the real run loop on every run
 (stream `dtlsctx`: real multi-record datagrams into a real `DtlsTransport`; the context is published by a hook after each
-datagram; handshake message types whose handler is a no-op for the endpoint's role). Handlers themselves (crypto, certificates, flights) are outside the model. -/
+datagram; handshake message types whose handler is a no-op for the endpoint's role; one session per run drives the counter to
+its end so that the error flag is compared as well). The endpoint has no keys: the clear-text-after-keys skip, protected alerts and
+every handler (crypto, certificates, flights) are outside the model. -/
 theorem dtls_reassembly_bounded (isClient : Bool) (datagrams : List (List UInt8)) (b : Buf) (n : Nat) (site : String) :
     Dtls.datagramHistory isClient {} datagrams b n ≠ .panic site ∧
     ∀ cs b' n', Dtls.datagramHistory isClient {} datagrams b n = .ok cs b' n' →
@@ -249,7 +251,8 @@ every loop is left: besides the byte walkers this covers the state that decides 
 in-order fast path, `received_queue` insert and in-order drain of `handle_data` (queued chunk values are re-parsed by
 `process_data_payload` when drained: the proof carries the invariant that every queued value kept its 12-byte header),
 the T1 gates of INIT-ACK / COOKIE-ACK, duplicate INIT, COOKIE-ECHO, FORWARD-TSN with its queue `retain`, RE-CONFIG
-request numbering, DCEP channel creation, and handler errors that end a packet. The model is compared with a real
+request numbering, DCEP reassembly and channel creation (bounded, see below). Not in the model: `InboundStream` ordering, user-message
+reassembly content, the send side, timers, and handler errors (`?` on a failed send — cannot occur while the link is open). The model is compared with a real
 association on every run (stream `sctpassoc`: replies, created channels, cumulative TSN, queue length, peer rwnd). -/
 theorem noPanic_sctpHistory (ps : List SctpSt.Pkt) (clientSide : Bool) (b : Buf) (n : Nat) (site : String) :
     SctpSt.runHistory (if clientSide then { t1 := 1, hasTag := true } else {}) ps b n ≠ .panic site := by
